@@ -66,6 +66,9 @@ func (d *Disconnect) Unpack(r io.Reader) error {
 		}
 		return d.Properties.Unpack(bufr, DISCONNECT)
 	}
+	if d.FixHeader.RemainLength != 0 {
+		return codes.ErrMalformed
+	}
 	return nil
 }
 
